@@ -11,6 +11,10 @@ RULE = ("generated programs x seeded free-form layouts (continuation cuts at tok
 ASSUMPTIONS = ["'same items => same tree' needs leaf matchers to be insensitive to blanks between tokens: exercised, not proved"]
 TIE_MODULES = ["FparserModel.Reader"]
 
+# adjacent-keyword pairs on which the pinned tree is sensitive to extra blanks / a
+# continuation between the two words (known finding F-C04-3)
+KNOWN_PAIRS = {("IN", "OUT"), ("ERROR", "STOP"), ("DOUBLE", "PRECISION"), ("BLOCK", "DATA")}
+
 MODES = ["layout", "layout", "layout", "case", "semi", "kwpair"]
 
 
@@ -58,8 +62,20 @@ def run_case(case):
     fold = mode == "case"
     ctx = {"std": std, "ignore_comments": True, "mode": mode}
 
-    def layout_of(q):
-        return layout.render_free(q, case["seed"] ^ 0xC04, opts).text()
+    def layout_of(q, protect=()):
+        o_ = opts
+        if protect:
+            o_ = _opts(mode, random.Random(case["seed"] ^ 0xC04))
+            o_.__dict__.update(opts.__dict__)
+            o_.kw_protect = protect
+        return layout.render_free(q, case["seed"] ^ 0xC04, o_).text()
+
+    def kw_known(q, same):
+        """failure disappears when only the known-sensitive keyword pairs are protected"""
+        if mode != "kwpair" or not (_kw_pairs(q) & KNOWN_PAIRS):
+            return None
+        t = layout_of(q, KNOWN_PAIRS)
+        return "pred:compound_keyword_blanks" if same(t) else None
 
     if o1.kind != "tree":
         sigs = util.outcome_signature(o1)
@@ -72,7 +88,7 @@ def run_case(case):
         q = util.reduce_prog(p, failsp, max_tests=300)
         mini = layout_of(q)
         ctx["pairs"] = sorted(_kw_pairs(q))
-        known = findings.classify("C04", mini, ctx)
+        known = findings.classify("C04", mini, ctx) or kw_known(q, lambda t: real.try_parse(t, std=std, free=True).kind == "tree")
         res["findings"].append({"signature": known or ("layout-reject[%s]:%s" % (mode, sigs)),
                                 "what": "laid-out source rejected (%s): %s | minimal %r" % (mode, str(o1.exc)[:150], mini[:500]),
                                 "replay": {"case": case, "source": src, "canonical": canon, "minimal": mini}})
@@ -91,7 +107,11 @@ def run_case(case):
         ctx["diff"] = d
         ctx["fold_equal"] = treeutil.sig(oa.tree, fold=True) == treeutil.sig(ob.tree, fold=True)
         ctx["pairs"] = sorted(_kw_pairs(q))
-        known = findings.classify("C04", mini, ctx)
+
+        def same_tree(t):
+            o_ = real.try_parse(t, std=std, free=True)
+            return o_.kind == "tree" and treeutil.sig(o_.tree, fold=fold) == treeutil.sig(oa.tree, fold=fold)
+        known = findings.classify("C04", mini, ctx) or kw_known(q, same_tree)
         res["findings"].append({"signature": known or ("tree-differs[%s]:%s" % (mode, str(d[1])[:50] if d else "?")),
                                 "what": "tree of laid-out source differs (%s) at %s: %s vs %s | minimal %r" % ((mode,) + tuple(d) + (mini[:400],)),
                                 "replay": {"case": case, "source": src, "canonical": canon, "minimal": mini}})
